@@ -1364,3 +1364,155 @@ pub fn c17(base_seed: u64, i: u64, g: &GenCtx) -> Plan {
     let lvl = level(&mut r, g.avail);
     single("C17", "c17", seed, Cfg::default(), data, lvl, ops)
 }
+
+// ---------------------------------------------------------------------------------------------
+// C06: the C library computes the same function (driven through blake3_hasher_* only)
+
+fn c_mode(r: &mut Rng, data: &mut Vec<DataSpec>) -> Mode {
+    match r.below(5) {
+        0 | 1 => Mode::Hash,
+        2 => {
+            data.push(DataSpec::Random { seed: r.next(), len: 32 });
+            Mode::Keyed { key: data.len() - 1 }
+        }
+        _ => {
+            let len = match r.below(6) {
+                0 => 0,
+                1 => 1 + r.usize_below(8),
+                2 => 300 + r.usize_below(900),
+                _ => 1 + r.usize_below(60),
+            };
+            data.push(DataSpec::Random { seed: r.next(), len });
+            Mode::Derive { ctx: data.len() - 1 }
+        }
+    }
+}
+
+fn c_mask(r: &mut Rng) -> u32 {
+    match r.below(6) {
+        0 => 0x7f,
+        1 => 0,
+        2 => *r.pick(&[0x01u32, 0x03, 0x07, 0x0f, 0x1f, 0x3f, 0x5f]),
+        _ => r.below(128) as u32,
+    }
+}
+
+fn c_out_len(r: &mut Rng) -> usize {
+    match r.below(10) {
+        0 => 0,
+        1 => *r.pick(&[1usize, 31, 32, 33]),
+        2 | 3 => *r.pick(&[63usize, 64, 65, 127, 128, 129]),
+        4 => *r.pick(&[1023usize, 1024, 1025, 16 * 64, 16 * 64 + 1, 17 * 64 - 1]),
+        5 => r.usize_below(8 * KIB),
+        _ => r.usize_below(300),
+    }
+}
+
+fn c_history(r: &mut Rng, data: &mut Vec<DataSpec>, slot: &mut usize, max: usize, tbb: bool) -> Vec<Op> {
+    let mut ops = Vec::new();
+    let m = c_mode(r, data);
+    let c = *slot;
+    *slot += 1;
+    let flavour = r.below(2) as u8;
+    ops.push(Op::CInit { slot: c, flavour, mode: m, raw: r.chance(1, 2) });
+    let rounds = 1 + r.usize_below(2);
+    for round in 0..rounds {
+        let total = size(r, max);
+        data.push(data_spec(r, total));
+        let di = data.len() - 1;
+        let mut off = 0;
+        for f in fragments(r, total) {
+            let t = if tbb && f > KIB && r.chance(2, 3) { Some(join_policy(r)) } else { None };
+            ops.push(Op::CUpdate { c, data: di, off, len: f, tbb: t });
+            off += f;
+            let x = r.below(12);
+            if x < 3 {
+                ops.push(Op::CFinalize { c, seek: None, out_len: c_out_len(r) });
+            } else if x < 6 {
+                ops.push(Op::CFinalize { c, seek: Some(xof_pos(r)), out_len: c_out_len(r) });
+            } else if x == 6 {
+                let n = *slot;
+                *slot += 1;
+                ops.push(Op::CCopy { c, new: n });
+                let extra = 1 + r.usize_below(3000);
+                data.push(DataSpec::Random { seed: r.next(), len: extra });
+                ops.push(Op::CUpdate { c: n, data: data.len() - 1, off: 0, len: extra, tbb: None });
+                ops.push(Op::CFinalize { c: n, seek: None, out_len: 32 });
+            }
+        }
+        ops.push(Op::CFinalize { c, seek: None, out_len: 32 });
+        ops.push(Op::CFinalize { c, seek: Some(xof_pos(r)), out_len: c_out_len(r) });
+        if round + 1 < rounds {
+            ops.push(Op::CReset { c });
+        }
+    }
+    ops
+}
+
+pub fn c06(base_seed: u64, i: u64, g: &GenCtx) -> Plan {
+    let seed = mix(base_seed ^ 0xC06, i);
+    let mut r = Rng::new(seed);
+    let mut data = Vec::new();
+    let mut slot = 0;
+    let max = if g.tier_thorough { 300 * KIB } else { 48 * KIB };
+    let mut ops = vec![Op::CSetMask { mask: c_mask(&mut r) }];
+    let n = 1 + r.usize_below(2);
+    for _ in 0..n {
+        ops.extend(c_history(&mut r, &mut data, &mut slot, max, false));
+    }
+    single("C06", "c06", seed, Cfg::default(), data, Level::Detect, ops)
+}
+
+/// blake3_hasher_update_tbb with the harness as the TBB seam (serves C06 and C08)
+pub fn c06_tbb(base_seed: u64, i: u64, g: &GenCtx) -> Plan {
+    let seed = mix(base_seed ^ 0x7BB, i);
+    let mut r = Rng::new(seed);
+    let mut data = Vec::new();
+    let mut slot = 0;
+    let max = if g.tier_thorough { 600 * KIB } else { 100 * KIB };
+    // small masks give degree 1/4 so that even short inputs split many times
+    let mask = match r.below(4) {
+        0 => 0,
+        1 => 0x07,
+        _ => c_mask(&mut r),
+    };
+    let mut ops = vec![Op::CSetMask { mask }];
+    ops.extend(c_history(&mut r, &mut data, &mut slot, max, true));
+    let cfg = Cfg { pool_width: 1 + r.below(8) as u8, ..Cfg::default() };
+    let mut p = single("C06", "c06-tbb", seed, cfg, data, Level::Detect, ops);
+    p.schedule = schedule(&mut r);
+    p
+}
+
+pub fn c08_c(base_seed: u64, i: u64, g: &GenCtx) -> Plan {
+    let mut p = c06_tbb(base_seed ^ 0x88, i, g);
+    p.prop = "C08".into();
+    p.family = "c08-c-tbb".into();
+    p
+}
+
+/// C18, C side: Rust and C instances on several caller tasks; the C feature cache starts UNDEFINED
+pub fn c18_mixed(base_seed: u64, i: u64, g: &GenCtx) -> Plan {
+    let seed = mix(base_seed ^ 0x18C, i);
+    let mut r = Rng::new(seed);
+    let ntasks = 2 + r.usize_below(4);
+    let mut data = Vec::new();
+    let mut slot = 0;
+    let mut tasks = Vec::new();
+    let undefined_start = r.chance(2, 3);
+    for t in 0..ntasks {
+        let mut ops = Vec::new();
+        if t == 0 {
+            ops.push(Op::CSetMask { mask: if undefined_start { u32::MAX } else { 0x7f } });
+        }
+        if r.chance(2, 3) {
+            ops.extend(c_history(&mut r, &mut data, &mut slot, 20 * KIB, false));
+        } else {
+            ops.extend(solo_program(&mut r, &mut data, &mut slot, g));
+        }
+        tasks.push(TaskPlan { level: level(&mut r, g.avail), ops });
+    }
+    let mut p = multi("C18", "c18-mixed-c", seed, Cfg { pool_width: 1, ..Cfg::default() }, data, tasks, &mut r);
+    p.schedule = schedule(&mut r);
+    p
+}
